@@ -4,7 +4,6 @@ package main
 // methods (by interface contract).
 
 import (
-	"os"
 	"regexp"
 	"fmt"
 	"go/ast"
@@ -495,7 +494,7 @@ func (fr *Frame) callByContract(fc *FuncContract, sig *types.Signature, srcNames
 				}
 			}
 		}
-		if sv, ok := v.(SliceV); ok && i < len(fc.Results) && os.Getenv("OWVC_NOSUB") == "" {
+		if sv, ok := v.(SliceV); ok && i < len(fc.Results) {
 			// "R.id == x.g_attr" in a postcondition: the result is that very object
 			// (substituted, so that later reads through it simplify syntactically)
 			re := regexp.MustCompile(`(^|&& )` + regexp.QuoteMeta(fc.Results[i]) + `\.id == (\w+\.g_\w+)( &&|$)`)
